@@ -6,7 +6,10 @@ dimensions_part (C09.b); tile coordinates from requests are int()-converted and 
 names are only used as dictionary keys (C09.c); dimensions_part sanitises every
 request-derived key and value before it becomes a directory name (C09.d); tile services
 validate dimension values before use (C09.e); static file serving refuses dot segments
-(C09.f)."""
+(C09.f).
+Added in round 4: the directory of a cache follows the documented precedence and a relative
+`filename` of the single-file backends is placed below it, decided by partial evaluation for sample
+configurations (C09.j)."""
 import ast
 import re
 
